@@ -32,6 +32,7 @@
 // terminating \0.
 constexpr auto MAXLEN = 4001u;
 constexpr auto ID_TOO_LONG = "$Identifier_is_too_long._Limit_length_is_4000.";
+constexpr auto STRING_TOO_LONG = "$String_literal_is_too_long._Limit_length_is_4000_including_the_quotes.";
 
 enum class syntax_t : unsigned int {
     NONE = 0u,
